@@ -81,6 +81,7 @@ type termKey struct {
 }
 
 type TermStore struct {
+	widen map[*Term]*Term // exact float32->float64 widening (bit-vector form) -> its float32 source
 	tab   map[termKey]*Term
 	next  int32
 	True  *Term
@@ -88,7 +89,7 @@ type TermStore struct {
 }
 
 func NewTermStore() *TermStore {
-	ts := &TermStore{tab: make(map[termKey]*Term, 1024)}
+	ts := &TermStore{tab: make(map[termKey]*Term, 1024), widen: map[*Term]*Term{}}
 	ts.False = ts.mk(OConst, 0, nil, nil, nil, 0, 0, "")
 	ts.True = ts.mk(OConst, 0, nil, nil, nil, 1, 0, "")
 	return ts
@@ -741,6 +742,9 @@ func (ts *TermStore) FIsNaN(a *Term) *Term {
 	if a.op == OF32to64 {
 		return ts.FIsNaN(a.a)
 	}
+	if src, ok := ts.widen[a]; ok {
+		return ts.FIsNaN(src) // widening preserves NaN-ness (lemma hFpWidenLemma)
+	}
 	if a.op == OConst {
 		return ts.Bool(math.IsNaN(fbits(a.w, a.k)))
 	}
@@ -751,6 +755,9 @@ func (ts *TermStore) FIsNaN(a *Term) *Term {
 func (ts *TermStore) FIsInf(a *Term, sign int) *Term {
 	if a.op == OF32to64 {
 		return ts.FIsInf(a.a, sign)
+	}
+	if src, ok := ts.widen[a]; ok {
+		return ts.FIsInf(src, sign) // widening maps exactly the infinities to the infinities (lemma)
 	}
 	if a.op == OConst {
 		return ts.Bool(math.IsInf(fbits(a.w, a.k), sign))
@@ -772,6 +779,22 @@ func (ts *TermStore) FCmp(op Op, a, b *Term) *Term {
 	}
 	if a.op == OF32to64 && b.op == OF32to64 {
 		return ts.FCmp(op, a.a, b.a) // float32 -> float64 is exact and order preserving
+	}
+	if sa, ok := ts.widen[a]; ok {
+		if sb, ok := ts.widen[b]; ok {
+			return ts.FCmp(op, sa, sb) // widening preserves <, <=, == (lemma hFpWidenLemma)
+		}
+		if b.op == OConst {
+			f := math.Float64frombits(b.k)
+			if float64(float32(f)) == f || math.IsNaN(f) {
+				return ts.FCmp(op, sa, ts.Const(32, uint64(math.Float32bits(float32(f)))))
+			}
+		}
+	} else if sb, ok := ts.widen[b]; ok && a.op == OConst {
+		f := math.Float64frombits(a.k)
+		if float64(float32(f)) == f || math.IsNaN(f) {
+			return ts.FCmp(op, ts.Const(32, uint64(math.Float32bits(float32(f)))), sb)
+		}
 	}
 	if a.op == OConst && b.op == OConst {
 		x, y := fbits(a.w, a.k), fbits(b.w, b.k)
@@ -836,7 +859,9 @@ func (ts *TermStore) F32to64(a *Term) *Term {
 	}
 	expZero := ts.Eq(exp, c(0))
 	expOnes := ts.Eq(exp, c(255))
-	return ts.Ite(expOnes, infnan, ts.Ite(expZero, sub, normal))
+	r := ts.Ite(expOnes, infnan, ts.Ite(expZero, sub, normal))
+	ts.widen[r] = a
+	return r
 }
 
 // ---------- evaluation under a model ----------
